@@ -154,31 +154,39 @@ def Op.toW : Op → OpW
   | .unplan i => .unplan i
   | .exec now cb fuel => .exec (wr now) (cbToW cb) fuel
 
-/-! ### stimer with the elapsed time computed in `unsigned long` (LP64: `BitVec 64`)
+/-! ### stimer with the arithmetic done in `unsigned long` (`stimer.c` after the repair)
 
-`stimer.c` after the repair: `(long)((unsigned long)curtime - (unsigned long)start) >= interval`,
+`long` has `w` bits (`w = 64` on the LP64 platform of the harness, `w = 32` on the ILP32
+microcontrollers the library is written for):
+`(long)((unsigned long)curtime - (unsigned long)start) >= interval`,
 `start = (long)((unsigned long)start + (unsigned long)interval)`. -/
 
-abbrev W64 := BitVec 64
-
-structure STimerW where
-  start : W64 := 0
-  interval : W64 := 0
+structure STimerN (w : Nat) where
+  start : BitVec w := 0
+  interval : BitVec w := 0
   planed : Bool := false
 deriving DecidableEq, Repr, Inhabited
 
 /-- `timer->planed && ((long)((unsigned long)curtime - (unsigned long)timer->start) >= timer->interval)` -/
-def stimerCheckW (t : STimerW) (curtime : W64) : Bool :=
+def stimerCheckN {w : Nat} (t : STimerN w) (curtime : BitVec w) : Bool :=
   t.planed && decide (t.interval.toInt ≤ (curtime - t.start).toInt)
 
-def stimerSwiftW (t : STimerW) : STimerW := { t with start := t.start + t.interval }
+def stimerSwiftN {w : Nat} (t : STimerN w) : STimerN w := { t with start := t.start + t.interval }
 
-def stimerFinishW (t : STimerW) : W64 := t.start + t.interval
+def stimerFinishN {w : Nat} (t : STimerN w) : BitVec w := t.start + t.interval
 
-def stimerPeriodicW (t : STimerW) (curtime : W64) : STimerW × Bool :=
-  if stimerCheckW t curtime then (stimerSwiftW t, true) else (t, false)
+def stimerPeriodicN {w : Nat} (t : STimerN w) (curtime : BitVec w) : STimerN w × Bool :=
+  if stimerCheckN t curtime then (stimerSwiftN t, true) else (t, false)
 
+def STimer.toN (w : Nat) (t : STimer) : STimerN w := ⟨BitVec.ofInt w t.start, BitVec.ofInt w t.interval, t.planed⟩
+
+/-- the LP64 instance the harness runs -/
+abbrev W64 := BitVec 64
+abbrev STimerW := STimerN 64
+def stimerCheckW (t : STimerW) (curtime : W64) : Bool := stimerCheckN t curtime
+def stimerSwiftW (t : STimerW) : STimerW := stimerSwiftN t
+def stimerFinishW (t : STimerW) : W64 := stimerFinishN t
+def stimerPeriodicW (t : STimerW) (curtime : W64) : STimerW × Bool := stimerPeriodicN t curtime
 def wr64 (x : Int) : W64 := BitVec.ofInt 64 x
-def STimer.toW (t : STimer) : STimerW := ⟨wr64 t.start, wr64 t.interval, t.planed⟩
 
 end Igris.C16
